@@ -210,7 +210,12 @@ func run(c config, timeout time.Duration) (outs [][]int, closed []int, leaked, t
 		for j := range idx {
 			idx[j] = j
 		}
-		oc = []<-chan int{callPipeline(f, g)(idx)}
+		// the composed function is built once and invoked twice: a first time over no items (drained
+		// here), then over the real ones; every invocation must get channels of its own
+		pl := callPipeline(f, g)
+		for range pl([]int{}) {
+		}
+		oc = []<-chan int{pl(idx)}
 	default:
 		panic("unknown form " + c.form)
 	}
